@@ -797,4 +797,88 @@ theorem EInv.removeHook {R : Router} {T : Str → Prop} (h : EInv R T) (cenv : C
         simp only [Killed, true_and]
         rw [hq]; exact hne
 
+/-! ### histories -/
+
+/-- the domain of an editing call: the parsed pattern holds no literal marker character (true
+for every rule text without CR) and a registered rule does not end with `*`, the marker of
+`remove` (the driver refuses lines outside this domain) -/
+def EditOK : EditOp → Prop
+  | .reg (.add cenv a) => ∀ p, parseRule cenv a.rule = .ok p → NoLitTok p.syms ∧ NoStar p.syms
+  | .reg (.removeMethod _ _) => True
+  | .removeRule cenv rule => ∀ p, parseRule cenv rule = .ok p → NoLitTok p.syms
+  | .removeName _ => True
+  | .addHook cenv rule _ _ => ∀ p, parseRule cenv rule = .ok p → NoLitTok p.syms
+  | .removeHook cenv rule => ∀ p, parseRule cenv rule = .ok p → NoLitTok p.syms
+
+/-- how a call changes the set of hook patterns the property leaves unspecified: a `prefix*`
+removal adds everything at or below the prefix, `remove_hook` makes its pattern specified again -/
+def taintStep (T : Str → Prop) : EditOp → (Str → Prop)
+  | .removeRule cenv rule =>
+    match parseRule cenv rule with
+    | .ok p => taintRemove p.syms T
+    | .error _ => T
+  | .removeHook cenv rule =>
+    match parseRule cenv rule with
+    | .ok p => taintUnhook p.syms T
+    | .error _ => T
+  | _ => T
+
+/-- the unspecified hook patterns after a history -/
+def taintRun (ops : List EditOp) : Str → Prop := ops.foldl taintStep (fun _ => False)
+
+theorem EInv.step {R : Router} {T : Str → Prop} (h : EInv R T) (upper : Str → Str) (op : EditOp)
+    (hok : EditOK op) : EInv (R.editStep upper op) (taintStep T op) := by
+  cases op with
+  | reg o =>
+    cases o with
+    | add cenv a => exact h.add upper cenv a hok
+    | removeMethod id ms => exact h.removeMethod id ms
+  | removeRule cenv rule => exact h.removeRule cenv rule hok
+  | removeName nm => exact h.removeName nm
+  | addHook cenv rule hook pt => exact h.addHook cenv rule hook pt hok
+  | removeHook cenv rule => exact h.removeHook cenv rule hok
+
+theorem foldl_einv (upper : Str → Str) (ops : List EditOp) (hok : ∀ op ∈ ops, EditOK op)
+    (R : Router) (T : Str → Prop) (h : EInv R T) :
+    EInv (ops.foldl (Router.editStep upper) R) (ops.foldl taintStep T) := by
+  induction ops generalizing R T with
+  | nil => exact h
+  | cons op ops ih =>
+    exact ih (fun o ho => hok o (by simp [ho])) _ _ (h.step upper op (hok op (by simp)))
+
+/-- after every edit history the invariant holds -/
+theorem editRun_inv (upper : Str → Str) (ops : List EditOp) (hok : ∀ op ∈ ops, EditOK op) :
+    EInv (Router.editRun upper ops) (taintRun ops) :=
+  foldl_einv upper ops hok {} _ einv_init
+
+/-- a history without `prefix*` removals leaves nothing unspecified -/
+theorem taintRun_none (ops : List EditOp)
+    (h : ∀ cenv rule p, EditOp.removeRule cenv rule ∈ ops → parseRule cenv rule = .ok p → (starSplit p.syms).2 = false) :
+    ∀ ps, ¬ taintRun ops ps := by
+  suffices H : ∀ (T : Str → Prop), (∀ ps, ¬ T ps) → ∀ ps, ¬ ops.foldl taintStep T ps from H _ (fun _ h => h)
+  induction ops with
+  | nil => intro T hT; exact hT
+  | cons op ops ih =>
+    intro T hT
+    refine ih (fun cenv rule p hm hp => h cenv rule p (by simp [hm]) hp) _ ?_
+    intro ps
+    cases op with
+    | reg o => exact hT ps
+    | removeName nm => exact hT ps
+    | addHook _ _ _ _ => exact hT ps
+    | removeRule cenv rule =>
+      simp only [taintStep]
+      cases hp : parseRule cenv rule with
+      | error e => exact hT ps
+      | ok p =>
+        simp only [taintRemove]
+        rintro (h0 | ⟨h1, _⟩)
+        · exact hT ps h0
+        · rw [h cenv rule p (by simp) hp] at h1; cases h1
+    | removeHook cenv rule =>
+      simp only [taintStep]
+      cases hp : parseRule cenv rule with
+      | error e => exact hT ps
+      | ok p => simp only [taintUnhook]; exact fun h0 => hT ps h0.1
+
 end Ombott.Router
